@@ -16,7 +16,7 @@ warnings.filterwarnings("ignore")
 
 from tools import nir2coq
 
-COQ_TIMEOUT = int(os.environ.get("VERIF_COQ_TIMEOUT", "900"))
+COQ_TIMEOUT = int(os.environ.get("VERIF_COQ_TIMEOUT", "600"))
 
 
 class HarnessFault(Exception):
